@@ -37,7 +37,7 @@ ASSUMPTIONS = [
     "plain asyncio tasks are joined before the block that created them is left (ctx.spawn from a task that outlived its scope is unspecified)",
     "gates stand for external events; the ready queue below them is FIFO",
 ]
-MINIMUMS = {"monitor:task-state": 100000, "monitor:resource-initialiser-state": 1000, "resource_releases_with_own_blocks": 10, "conflicting_probes": 2000, "set:schedules": 2000, "tasks_spawned_ctx": 300, "tasks_spawned_asyncio": 300, "programs_through_the_cache_helper": 8}
+MINIMUMS = {"monitor:task-state": 100000, "monitor:resource-initialiser-state": 1000, "resource_releases_with_own_blocks": 10, "conflicting_probes": 2000, "set:schedules": 2000, "tasks_spawned_ctx": 300, "tasks_spawned_asyncio": 300, "programs_through_the_cache_helper": 8, "programs_spawning_detached_tasks_below_a_synchronous_root": 6}
 JOBS = {"quick": 4, "thorough": 16}
 LEVEL_TEXT = (
     "Programs of 2-4 tasks (half started with ctx.spawn, half with asyncio.create_task, at different depths, while the parent keeps entering/leaving blocks) are run under many "
@@ -296,8 +296,31 @@ def cached_call_programs():  # noqa: ANN201
                 yield [probe(), root, probe()], 2
 
 
+def detached_spawn_programs():  # noqa: ANN201
+    """ctx.spawn where no async scope is open anywhere (a synchronous scope at the root, possibly with updates): the documented detached
+    task - it still is a task started there and sees the state visible where it was started, plus its own blocks"""
+    for nested_update in (False, True):
+        for own_kind in ("updated", "sscope", "ascope"):
+            pid = itertools.count(1)
+
+            def probe() -> dict[str, Any]:
+                return {"op": "probe", "id": next(pid)}
+
+            own = {"op": "block", "kind": own_kind, "name": "c.own", "supply": [["R1", 2], ["D1", 20]], "body": [probe(), {"op": "gate", "label": "c.g1"}, probe()]}
+            child = {"op": "spawn", "via": "ctx", "name": "c", "body": [probe(), own, {"op": "gate", "label": "c.g2"}, probe()]}
+            pown = {"op": "block", "kind": "updated", "name": "p.own", "supply": [["R1", 3], ["D2", 30]], "body": [probe(), {"op": "gate", "label": "p.g2"}, probe()]}
+            inner = [probe(), child, {"op": "gate", "label": "p.g1"}, pown, {"op": "join", "names": ["c"]}, probe()]
+            if nested_update:
+                inner = [{"op": "block", "kind": "updated", "name": "p.upd", "supply": [["D1", 5]], "body": inner}]
+            root = {"op": "block", "kind": "sscope", "name": "root", "supply": [["R1", 1], ["D2", 10]], "body": inner}
+            yield [probe(), root, probe()], 2
+
+
 def run(R: Recorder, tier: str, seed: int, shard: int, nshards: int) -> None:
     nprog, cap, nrandom = PROGRAMS[tier]
+    if shard == 2 % nshards:
+        explore(R, detached_spawn_programs(), random.Random(f"C03/{seed}/detached"), cap, nrandom)
+        R.count("programs_spawning_detached_tasks_below_a_synchronous_root", 6)
     if shard == 1 % nshards:
         explore(R, cached_call_programs(), random.Random(f"C03/{seed}/cached"), cap, nrandom)
         R.count("programs_through_the_cache_helper", 8)
